@@ -43,7 +43,15 @@ func (attr Attribute) GetValueRange() common.ResolvedRange {
 	// Find the first occurrence of the value inside the comment text
 	idx := -1
 	if attr.Comment.Text != "" {
-		idx = strings.Index(attr.Comment.Text, attr.Value)
+		// The value is written inside the parentheses - an earlier occurrence of the same text (e.g. the 'a' of '@Path') is not it
+		if openIdx := strings.Index(attr.Comment.Text, "("); openIdx >= 0 && attr.Value != "" {
+			if relIdx := strings.Index(attr.Comment.Text[openIdx+1:], attr.Value); relIdx >= 0 {
+				idx = openIdx + 1 + relIdx
+			}
+		}
+		if idx < 0 {
+			idx = strings.Index(attr.Comment.Text, attr.Value)
+		}
 	}
 
 	// If not found, fallback to comment range
